@@ -23,7 +23,8 @@ def scenarios(pid, tier, seed):
     if pid == "C06":
         return spawn_scen.fam_argv(seed, big)
     if pid == "C07":
-        return spawn_scen.fam_faults(seed, big) + spawn_scen.fam_path(seed, False)[-8:]
+        return (spawn_scen.fam_faults(seed, big) + spawn_scen.fam_path(seed, False)[-8:]
+                + [x for x in spawn_scen.fam_argv(seed, False) if x["class"] == "nul"])
     if pid == "C08":
         return spawn_scen.fam_leak(seed, big) + spawn_scen.fam_wiring(seed, False)[::5] + spawn_scen.fam_eofrace(seed, big)
     if pid == "C15":
@@ -34,7 +35,9 @@ def scenarios(pid, tier, seed):
     if pid == "C18":
         # (also through the PATH search: attempts that fail before the one that starts the program)
         return (spawn_scen.fam_signals(seed, big) + spawn_scen.fam_path(seed, False)[::3]
-                + [x for x in spawn_scen.fam_faults(seed, False) if x.get("fault", {}).get("kind") == "signal"])
+                + [x for x in spawn_scen.fam_faults(seed, False) if x.get("fault", {}).get("kind") == "signal"]
+                # ... and with an identity / process group of its own asked for
+                + [x for x in spawn_scen.fam_argv(seed, False) if x["class"].startswith("identity")])
     raise ToolError("no spawn scenarios for " + pid)
 
 
